@@ -118,6 +118,9 @@ def merge_agg(agg, r):
     agg['n_violations_raw'] = agg.get('n_violations_raw', 0) + len(r.get('violations', []))
     if len(agg['samples']) < 3 and r.get('sample') is not None:
         agg['samples'].append(r['sample'])
+    for smp in r.get('samples') or []:          # (a worker's aggregate carries a list)
+        if len(agg['samples']) < 3:
+            agg['samples'].append(smp)
     agg['harness_errors'].extend(r.get('harness_errors', []))
     agg['digests'].update(r.get('digests', {}))
     if r.get('cut_short'):
